@@ -309,6 +309,12 @@ m("CTL-C07-order-remove0", "C07", "", "shuttle-engine/src/runtime/storage.rs",
   "        let key = self.order.pop_front()?;",
   "        if self.order.is_empty() {\n            return None;\n        }\n        let key = self.order.remove(0)?;",
   "front taken with remove(0) (order-preserving)", silent=True)
+m("CTL-C16-range-contains", "C16", "", SER,
+  "    if task_id_bits == 0 || task_id_bits > usize::BITS as usize {", "    if !(1..=usize::BITS as usize).contains(&task_id_bits) {",
+  "width validation spelled as an inclusive range test", silent=True)
+m("C16-width-off-by-one", "C16", "reader-accepts-every-writer-width", SER,
+  "    if task_id_bits == 0 || task_id_bits > usize::BITS as usize {", "    if task_id_bits == 0 || task_id_bits >= usize::BITS as usize {",
+  "reader rejects the widest id width the writer can emit")
 m("CTL-C13-reset-helper", "C13", "", "shuttle-engine/src/current.rs",
   "    ExecutionState::with(|s| s.steps_reset_at = CurrentSchedule::len());",
   "    let now = CurrentSchedule::len();\n    ExecutionState::with(|s| s.steps_reset_at = now);",
